@@ -223,6 +223,10 @@ func parseContractFile(path string, pkgPath string) ([]*Contract, []string, erro
 			cc.Name = strings.TrimSpace(n)
 			cc.Shared = len(names) > 1
 			cc.ID = sanitize(filepath.Base(pkgPath) + "_" + cc.Name)
+			cc.Requires = append([]clause{}, c.Requires...)
+			cc.Ensures = append([]clause{}, c.Ensures...)
+			cc.Covers = append([]clause{}, c.Covers...)
+			cc.Modifies = append([]string{}, c.Modifies...)
 			cc.Loops = map[int]*loopSpec{}
 			for k, ls := range c.Loops {
 				cp := *ls
@@ -695,6 +699,19 @@ func genContract(g *genCtx, c *Contract, out *strings.Builder) error {
 	} else if len(rtypes) > 1 {
 		ret = " (" + strings.Join(rtypes, ", ") + ")"
 	}
+	if len(pnames) > 0 {
+		sub := func(cl []clause) {
+			for i := range cl {
+				cl[i].expr = strings.ReplaceAll(cl[i].expr, "$recv", pnames[0])
+			}
+		}
+		sub(c.Requires)
+		sub(c.Ensures)
+		sub(c.Covers)
+		for i := range c.Modifies {
+			c.Modifies[i] = strings.ReplaceAll(c.Modifies[i], "$recv", pnames[0])
+		}
+	}
 	fmt.Fprintf(out, "func %s(%s, verif_call func(%s)%s) {\n", c.genName, strings.Join(params, ", "), strings.Join(ftypes, ", "), ret)
 	var olds []string
 	var pre, post []string
@@ -719,6 +736,8 @@ func genContract(g *genCtx, c *Contract, out *strings.Builder) error {
 	for _, m := range c.Modifies {
 		if strings.HasSuffix(m, "[*]") {
 			fmt.Fprintf(out, "\tverifrt.ModifiesElems(%s)\n", strings.TrimSuffix(m, "[*]"))
+		} else if strings.HasPrefix(m, "*") {
+			fmt.Fprintf(out, "\tverifrt.Modifies(%s)\n", strings.TrimPrefix(m, "*"))
 		} else {
 			fmt.Fprintf(out, "\tverifrt.Modifies(&%s)\n", m)
 		}
